@@ -60,6 +60,14 @@ func runC02(c *Ctx) {
 	// ---------------- R1: verify.SNP ----------------
 	snp := c.fn("R1", "verify", "SNP")
 	if snp != nil {
+		// verify.SNP and the unexported helpers it may be split into; operands are followed through
+		// the helpers' parameters to their call sites
+		snpRegion := map[*ssa.Function]bool{}
+		for _, g := range unexportedRegion(snp) {
+			snpRegion[g] = true
+		}
+		sl := flow.NewSlicer(c.P)
+		sl.LiftParams = 3
 		keyedLookup := func(v ssa.Value) bool {
 			lk, ok := v.(*ssa.Lookup)
 			return ok && sl.Derives(lk.X, measMap) && sl.Derives(lk.Index, optCount)
@@ -76,13 +84,22 @@ func runC02(c *Ctx) {
 		names := []string{"eqKeyed:true", "eqAny:true", "configAbsent"}
 		nEq, nPresent := 0, 0
 		r := &esp.Rule{Name: "C02.R1"}
-		r.Relevant = func(*ssa.Function) bool { return false }
+		r.Relevant = func(f *ssa.Function) bool { return snpRegion[f] && f != snp }
 		r.Flag = func(v ssa.Value) (int, bool) {
 			if u, ok := v.(*ssa.UnOp); ok && u.Op == token.MUL {
 				if optCount(v) {
 					return 0, true
 				}
 				if optMeas(v) {
+					return 1, true
+				}
+			}
+			if p, ok := v.(*ssa.Parameter); ok && snpRegion[p.Parent()] && p.Parent() != snp {
+				// a helper's parameter that is always given the option's value
+				if sl.Derives(p, optCount) {
+					return 0, true
+				}
+				if sl.Derives(p, optMeas) {
 					return 1, true
 				}
 			}
@@ -452,13 +469,23 @@ func runC02(c *Ctx) {
 		const bRamMatch uint = 0
 		nStores, nAppends := 0, 0
 		is2D := func(t types.Type) bool { return t.String() == "[][]byte" }
+		tpRegion := map[*ssa.Function]bool{}
+		for _, g := range unexportedRegion(tp) {
+			tpRegion[g] = true
+			relevant[g] = true
+		}
+		sl := flow.NewSlicer(c.P)
+		sl.LiftParams = 3
 		r := &esp.Rule{Name: "C02.R5"}
-		r.Relevant = func(f *ssa.Function) bool { return relevant[f] && load.RelPkg(f) == "gcetcbendorsement" }
+		r.Relevant = func(f *ssa.Function) bool { return relevant[f] && load.RelPkg(f) == "gcetcbendorsement" && f != tp }
 		r.Flag = func(v ssa.Value) (int, bool) {
 			if isLenOf(v, func(x ssa.Value) bool { return is2D(x.Type()) }) {
 				return 0, true
 			}
 			if u, ok := v.(*ssa.UnOp); ok && u.Op == token.MUL && ramOpt(v) {
+				return 1, true
+			}
+			if p, ok := v.(*ssa.Parameter); ok && tpRegion[p.Parent()] && p.Parent() != tp && sl.Derives(p, ramOpt) {
 				return 1, true
 			}
 			return 0, false
